@@ -17,7 +17,7 @@ After the mark of a successful save comes 1/0: whether the text satisfies the Le
 -/
 import ArvVerif.Base.MD5
 import ArvVerif.Base.Loop
-import ArvVerif.Model.C09_FS
+import ArvVerif.Model.C09_Glue
 import ArvVerif.Model.C09_Spec
 open ArvVerif ArvVerif.C09
 open ArvVerif.C08 (Seg FileNode Ptr Flush Store Node Err Op Res)
@@ -247,9 +247,13 @@ def stepLine (line : String) : String :=
       | some txt, some bs, some ops =>
         if cw != 1 && ops.any needsSerial then "bad-op" else
         let k : Keep := ⟨initStore bs, [], [], Outcome.ok, 0, 0⟩
-        (match loadFS k txt with
+        -- `load=glue`: the directory list the model marshals does not hold exactly the loaded files
+        -- (the hypotheses of C09_load_marshal_preserves, decided by `glueOK`); never agrees with the
+        -- implementation
+        (match loadFSChecked k txt with
          | none => "load=err"
-         | some s0 => ";".intercalate ("load=ok" :: runOps max bs ⟨s0, false, false⟩ ops []))
+         | some none => "load=glue"
+         | some (some s0) => ";".intercalate ("load=ok" :: runOps max bs ⟨s0, false, false⟩ ops []))
       | _, _, _ => "bad-op"
     | _, _ => "bad-op"
   | _ => "bad-op"
